@@ -3,7 +3,7 @@
    all kernel answers.  The functional post-condition on the tree ("exactly the
    missing directories") and the convergence of concurrent callers are decided by
    the snapshot and interleaving runs of tools/props/C12.py (see DESIGN.md: partial). *)
-From PV Require Import Discipline ProgTac PathProofs DisciplineProofs OpathDisc RootDisc OpsProofs FdBalance FdBalProofs RootBal OpathBal BeneathProofs.
+From PV Require Import Discipline ProgTac PathProofs DisciplineProofs OpathDisc RootDisc OpsProofs FdBalance FdBalProofs RootBal OpathBal BeneathProofs Replay MonitorProofs.
 Open Scope N_scope.
 
 Theorem C12_mode_checked :
@@ -50,6 +50,15 @@ Theorem C12_creation_is_one_chain :
     existsb is_dotdot parts = false ->
     chain (@anyQ (result Z ekind)) (current0, None) (mk_parts fz mode parts current0).
 Proof. intros fz mode remaining current0 parts H. apply mk_parts_chain. apply mkdir_all_parts_ok. exact H. Qed.
+
+(* the same judgement as an executable monitor over recorded traces (tools/props/C12.py evaluates
+   [trace_chain], the monitor started at the first mkdirat, on the recorded calls) *)
+Theorem C12_chain_monitor_sound :
+  forall fz mode (remaining : option bytes) current0 t idx a n,
+    let parts := filter (fun p => negb (noop_part p)) (match remaining with Some rm => raw_components rm | None => [] end) in
+    existsb is_dotdot parts = false ->
+    run_trace (mk_parts fz mode parts current0) t idx = RDone a n -> trace_chain_from t (current0, None) = true.
+Proof. intros fz mode remaining current0 t idx a n parts H Hr. eapply chain_sound; [apply C12_creation_is_one_chain; exact H|exact Hr]. Qed.
 
 Theorem C12_loop :
   forall fz cfg pfuel gh ps rs root path mode,
@@ -111,3 +120,4 @@ Print Assumptions C12_no_unknown_panic.
 Print Assumptions C12_balanced_all_backends.
 Print Assumptions C12_creation_is_one_chain.
 Print Assumptions C12_loop.
+Print Assumptions C12_chain_monitor_sound.
